@@ -46,18 +46,47 @@ type Dir struct {
 	Reads, Writes int
 }
 
+//go:norace
 func NewDir(name string, capacity int) *Dir {
 	return &Dir{Name: name, Cap: capacity, WErrAt: -1, CutAt: -1, rsig: make(chan struct{}, 1), wsig: make(chan struct{}, 1)}
 }
 
+// poke and wait are the transport's own wake-ups; they are hidden from the race detector (a real socket
+// gives no happens-before edge between a Close or a write on one side and a Read returning on the other
+// that the detector could see).
+//
+//go:norace
 func poke(ch chan struct{}) {
+	simrt.Quiet()
 	select {
 	case ch <- struct{}{}:
 	default:
 	}
+	simrt.Unquiet()
+}
+
+//go:norace
+func wait(ch chan struct{}) {
+	simrt.Quiet()
+	<-ch
+	simrt.Unquiet()
+}
+
+//go:norace
+func waitTimer(ch chan struct{}, d time.Duration) {
+	simrt.Quiet()
+	t := time.NewTimer(d)
+	select {
+	case <-ch:
+		t.Stop()
+	case <-t.C:
+	}
+	simrt.Unquiet()
 }
 
 // Deliver moves up to n in-flight bytes to the reader. Scheduler only.
+//
+//go:norace
 func (d *Dir) Deliver(n int) int {
 	if n > len(d.Inflight) {
 		n = len(d.Inflight)
@@ -74,7 +103,7 @@ func (d *Dir) Deliver(n int) int {
 		} else {
 			d.EOF = true
 		}
-		d.Readable = append(d.Readable, d.Inflight[:min(n, len(d.Inflight))]...)
+		d.Readable = rawAppend(d.Readable, d.Inflight[:min(n, len(d.Inflight))])
 		if !d.CutRST {
 			d.Inflight = nil // nothing after the cut ever arrives
 		}
@@ -83,7 +112,7 @@ func (d *Dir) Deliver(n int) int {
 		poke(d.wsig)
 		return n
 	}
-	d.Readable = append(d.Readable, d.Inflight[:n]...)
+	d.Readable = rawAppend(d.Readable, d.Inflight[:n])
 	d.Inflight = d.Inflight[n:]
 	d.Deliv += int64(n)
 	poke(d.rsig)
@@ -91,6 +120,8 @@ func (d *Dir) Deliver(n int) int {
 }
 
 // Take removes and returns everything readable (peer-side consumption). Scheduler only.
+//
+//go:norace
 func (d *Dir) Take() []byte {
 	b := d.Readable
 	d.Readable = nil
@@ -101,9 +132,11 @@ func (d *Dir) Take() []byte {
 }
 
 // Inject appends bytes as if the peer had written them. Scheduler only.
+//
+//go:norace
 func (d *Dir) Inject(b []byte) {
 	start := d.Injected
-	d.Inflight = append(d.Inflight, b...)
+	d.Inflight = rawAppend(d.Inflight, b)
 	d.Injected += int64(len(b))
 	for _, f := range d.FlipAt {
 		if f[0] >= start && f[0] < d.Injected {
@@ -113,10 +146,14 @@ func (d *Dir) Inject(b []byte) {
 }
 
 // SetEOF makes the reader see EOF once what is readable has been read. Scheduler only.
+//
+//go:norace
 func (d *Dir) SetEOF() { d.EOF = true; poke(d.rsig) }
 
+//go:norace
 func (d *Dir) SetRErr(err error) { d.RErr = err; poke(d.rsig) }
 
+//go:norace
 func (d *Dir) full() bool { return d.Cap > 0 && len(d.Inflight)+len(d.Readable) >= d.Cap }
 
 // Conn is the endpoint the system under test holds.
@@ -141,6 +178,7 @@ func (timeoutErr) Timeout() bool   { return true }
 func (timeoutErr) Temporary() bool { return true }
 func (timeoutErr) Unwrap() error   { return os.ErrDeadlineExceeded }
 
+//go:norace
 func (c *Conn) Read(p []byte) (int, error) {
 	simrt.NetYield(c.Name + ".Read")
 	d := c.R
@@ -150,7 +188,7 @@ func (c *Conn) Read(p []byte) (int, error) {
 			return 0, net.ErrClosed
 		}
 		if len(d.Readable) > 0 {
-			n := copy(p, d.Readable)
+			n := rawCopy(p, d.Readable)
 			d.Readable = d.Readable[n:]
 			poke(d.wsig)
 			return n, nil
@@ -169,20 +207,16 @@ func (c *Conn) Read(p []byte) (int, error) {
 			if w <= 0 {
 				return 0, timeoutErr{}
 			}
-			t := time.NewTimer(w)
-			select {
-			case <-d.rsig:
-				t.Stop()
-			case <-t.C:
-			}
+			waitTimer(d.rsig, w)
 		} else {
 			simrt.At(c.Name + ".Read")
-			<-d.rsig // durable block until the scheduler delivers or somebody closes
+			wait(d.rsig) // durable block until the scheduler delivers or somebody closes
 		}
 		simrt.NetWoke(c.Name + ".Read")
 	}
 }
 
+//go:norace
 func (c *Conn) Write(p []byte) (int, error) {
 	simrt.NetYield(c.Name + ".Write")
 	d := c.W
@@ -208,15 +242,10 @@ func (c *Conn) Write(p []byte) (int, error) {
 				if w <= 0 {
 					return n, timeoutErr{}
 				}
-				t := time.NewTimer(w)
-				select {
-				case <-d.wsig:
-					t.Stop()
-				case <-t.C:
-				}
+				waitTimer(d.wsig, w)
 			} else {
 				simrt.At(c.Name + ".Write")
-				<-d.wsig
+				wait(d.wsig)
 			}
 			simrt.NetWoke(c.Name + ".Write")
 			continue
@@ -233,7 +262,7 @@ func (c *Conn) Write(p []byte) (int, error) {
 		if d.cutDone {
 			// written after the cut: swallowed by the dead link
 		} else {
-			d.Inflight = append(d.Inflight, p[n:n+room]...)
+			d.Inflight = rawAppend(d.Inflight, p[n:n+room])
 		}
 		d.Written += int64(room)
 		n += room
@@ -241,6 +270,7 @@ func (c *Conn) Write(p []byte) (int, error) {
 	return n, nil
 }
 
+//go:norace
 func (c *Conn) Close() error {
 	simrt.NetYield(c.Name + ".Close")
 	c.Closes++
@@ -261,6 +291,7 @@ func (c *Conn) Close() error {
 	return nil
 }
 
+//go:norace
 func (c *Conn) Closed() bool { return c.closed }
 
 type simAddr string
@@ -268,9 +299,13 @@ type simAddr string
 func (a simAddr) Network() string { return "sim" }
 func (a simAddr) String() string  { return string(a) }
 
-func (c *Conn) LocalAddr() net.Addr  { return simAddr(c.Name + ":local") }
+//go:norace
+func (c *Conn) LocalAddr() net.Addr { return simAddr(c.Name + ":local") }
+
+//go:norace
 func (c *Conn) RemoteAddr() net.Addr { return simAddr(c.Name + ":remote") }
 
+//go:norace
 func (c *Conn) SetDeadline(t time.Time) error {
 	if c.DeadlineErr != nil {
 		return c.DeadlineErr
@@ -281,6 +316,7 @@ func (c *Conn) SetDeadline(t time.Time) error {
 	return nil
 }
 
+//go:norace
 func (c *Conn) SetReadDeadline(t time.Time) error {
 	if c.DeadlineErr != nil {
 		return c.DeadlineErr
@@ -290,6 +326,7 @@ func (c *Conn) SetReadDeadline(t time.Time) error {
 	return nil
 }
 
+//go:norace
 func (c *Conn) SetWriteDeadline(t time.Time) error {
 	if c.DeadlineErr != nil {
 		return c.DeadlineErr
@@ -306,4 +343,38 @@ func min(a, b int) int {
 		return a
 	}
 	return b
+}
+
+// rawAppend and rawCopy move bytes without the runtime's race hooks (append/copy report to the race detector on
+// behalf of their caller even from //go:norace functions); the transport's buffers are harness state.
+//
+//go:norace
+func rawAppend(dst, src []byte) []byte {
+	n := len(dst) + len(src)
+	if n > cap(dst) {
+		c := 2*cap(dst) + len(src) + 64
+		nd := make([]byte, len(dst), c)
+		for i := range dst {
+			nd[i] = dst[i]
+		}
+		dst = nd
+	}
+	k := len(dst)
+	dst = dst[:n]
+	for i := range src {
+		dst[k+i] = src[i]
+	}
+	return dst
+}
+
+//go:norace
+func rawCopy(dst, src []byte) int {
+	n := len(dst)
+	if len(src) < n {
+		n = len(src)
+	}
+	for i := 0; i < n; i++ {
+		dst[i] = src[i]
+	}
+	return n
 }
